@@ -1,0 +1,54 @@
+//go:build verif
+
+package toxiproxy
+
+import (
+	"fmt"
+	"sort"
+)
+
+// Hooks for the verification harness (/verif). Compiled only with -tags verif; add-only.
+
+// VerifLinkView describes one registered link: the toxic the collection lists at each chain
+// position next to the state of the stub at the same position.
+type VerifLinkView struct {
+	Name      string   `json:"name"`
+	Direction string   `json:"direction"`
+	Chain     []string `json:"chain"` // names ("" for the hidden noop) of collection.chain[dir]
+	Stubs     []string `json:"stubs"` // per stub: "open" | "closed"
+}
+
+// VerifLinks returns a view of every registered link of the proxy, sorted by name.
+func (p *Proxy) VerifLinks() []VerifLinkView {
+	c := p.Toxics
+	c.Lock()
+	defer c.Unlock()
+	var res []VerifLinkView
+	for name, link := range c.links {
+		v := VerifLinkView{Name: name, Direction: link.direction.String()}
+		for _, t := range c.chain[link.direction] {
+			v.Chain = append(v.Chain, fmt.Sprintf("%s:%s", t.Type, t.Name))
+		}
+		for _, s := range link.stubs {
+			if s.VerifClosed() {
+				v.Stubs = append(v.Stubs, "closed")
+			} else {
+				v.Stubs = append(v.Stubs, "open")
+			}
+		}
+		res = append(res, v)
+	}
+	sort.Slice(res, func(i, j int) bool { return res[i].Name < res[j].Name })
+	return res
+}
+
+// VerifCounts returns len(links) and len(connections).
+func (p *Proxy) VerifCounts() (links int, conns int) {
+	p.Toxics.Lock()
+	links = len(p.Toxics.links)
+	p.Toxics.Unlock()
+	p.connections.Lock()
+	conns = len(p.connections.list)
+	p.connections.Unlock()
+	return
+}
